@@ -1,7 +1,7 @@
 """
 C11 - JSON export and load round-trip every JSON-representable tree.
 
-Lean: lean/N0Verif/Model/Json.lean, Proofs/Json.lean, Props/C11.lean
+Lean: lean/N0Verif/Model/Json.lean, Proofs/Json.lean, Proofs/JsonPairs.lean, Props/C11.lean
 B streams : json.ctor (constructor model vs n0dict(text)/n0list(text): value, class tags, exception class),
             json.dump (model text vs to_json, blanks outside strings ignored), json.dump/exact (statistic only),
             json.loads (reader model vs json.loads on valid, mutated and hand-made invalid texts),
@@ -18,19 +18,32 @@ from harness.core import enc_str, dec_str
 
 MANIFEST = dict(
     category="proof",
-    technique="Lean 4 theorems over a hand-written model of n0pretty-as-called-by-to_json and of json.loads + differential correspondence with the implementation",
-    text="Lean theorems (Props/C11.lean): C11_decode_ren - the reader model (json.loads) decodes every JSON text of a "
+    technique="Lean 4 theorems over a hand-written model of n0pretty-as-called-by-to_json, of json.loads and of the n0dict(text)/n0list(text) constructors + differential correspondence with the implementation",
+    text="Lean theorems (Props/C11.lean, all unbounded): C11_decode_ren - the reader model (json.loads) decodes every JSON text of a "
          "value, whatever blanks/line breaks stand between the tokens, back to that value (all strings: quote, backslash, "
-         "control, non-ASCII; ints; float lexemes; true/false/null; unbounded depth and width); "
-         "C11_roundtrip_partial - for every tree with unique keys, valid float lexemes and depth <= 111 and every option "
-         "record with the pair layout off (compress, indent 0, or pairs_in_one_line=False; every indent, both values of "
-         "skip_empty_arrays) jsonDecode(toJson o t) = dropEmptyIf o t exactly. The full statement C11_roundtrip_stmt "
-         "(pair layout included, equality up to key order) is kept visible; the pair layout and depth > 111 are covered "
-         "differentially only: the model text is compared with to_json and the statement itself is executed on the "
-         "implementation over all 32 option combinations. Counter-example theorem for the open finding C11-e (nesting > 111). "
+         "control, non-ASCII; ints; float lexemes; true/false/null; unbounded depth and width). "
+         "C11_roundtrip_bounded - for every tree with unique keys, valid float lexemes and depth <= 111 and EVERY option record "
+         "(compress, every indent, pairs_in_one_line on and off - the padded pair layout included -, both values of "
+         "skip_empty_arrays) the exported text is accepted by the reader and the decoded value equals the tree minus the "
+         "containers skip_empty_arrays drops, as Python compares values (pyEq: class tags and dict order ignored); this is the "
+         "full statement C11_roundtrip_stmt plus the hypothesis depth <= 111. C11_roundtrip_ordered_partial gives the decoded value "
+         "exactly: the tree whose pair-layout records are listed in column (first-appearance) order (pairOrder); "
+         "C11_roundtrip_colorder_partial / C11_roundtrip_partial: exact equality, dict order included, whenever the records "
+         "already list their keys in column order, in particular with the pair layout off. C11_pair_record: one padded record "
+         "is a JSON text of the column-ordered record for any column widths. C11_roundtrip_stmt itself is kept visible and "
+         "proved FALSE (C11_roundtrip_stmt_false) by the counter-example of the open finding C11-e (C11_depth_cex: 112 nested "
+         "dicts are exported as text that is not JSON), so depth <= 111 is the only and a necessary restriction. "
+         "Constructor side: C11_load_hook - json.loads(text, object_pairs_hook=n0dict) accepts the same texts, fails with the "
+         "same error and builds the same value as json.loads(text) with every object an n0dict and arrays plain lists; "
+         "C11_load / C11_load_list - n0dict(text) / n0list(text) = json.loads(text.strip()) with those class tags for every "
+         "non-empty text whose first non-blank character is { / [ (errors included); C11_load_dispatch - empty text gives the empty "
+         "container, any other first character a TypeError; C11_export_construct_partial - n0dict(x.to_json(..)) / "
+         "n0list(x.to_json(..)) rebuild the tree for every option record (depth <= 111). "
+         "Differential only: nesting deeper than 111 (finding C11-e), XML texts handed to n0dict (other properties), file=/force_dict= "
+         "keywords, xpath navigation of the constructed object (evaluator `constructor`). "
          "The model follows the code with fix patches C11-a, C11-c, C11-d, C11-f applied.",
-    note="json.loads and json.dumps(ensure_ascii=False) are modelled and validated by their own streams; floats are opaque lexemes; "
-         "the constructor side (n0dict(text) == json.loads(text)) is differential only.",
+    note="json.loads, json.dumps(ensure_ascii=False) and the constructors' dispatch are modelled and validated by their own streams "
+         "(json.loads, json.esc, json.ctor); floats are opaque lexemes.",
     design_ref="5/C11",
 )
 
@@ -491,7 +504,7 @@ def impl_ctor(c):
         got = (n0dict if c["kind"] == "d" else n0list)(text)
     except RecursionError:
         return "err RecursionError"
-    except ValueError:  # json.JSONDecodeError
+    except json.JSONDecodeError:
         return "err JSONDecodeError"
     except Exception as e:
         return "err " + type(e).__name__
@@ -713,6 +726,7 @@ def run(ctx):
     ]
     ctx.extra["trusted_base"] = [
         "hand-written reader model of json.loads (Model/Json.lean, parseValue/scanString/nscan) validated on valid, mutated and hand-made invalid texts",
+        "hand-written model of the str branch of n0dict.__init__ / n0list.__init__ (n0dictOfText, n0listOfText, parseValueH = the scanner with object_pairs_hook) validated by stream json.ctor (values, class tags, exception classes; blanks that strip() removes and JSON rejects)",
         "the evaluator's reference semantics prune/plain (tied to the Lean prune/erase by stream json.expect)",
     ]
-    ctx.extra["differential_only"] = ["pair layout (pairs_in_one_line with indent > 0)", "nesting deeper than 111 (finding C11-e)", "constructors n0dict(text)/n0list(text)"]
+    ctx.extra["differential_only"] = ["nesting deeper than 111 (finding C11-e)", "n0dict(xml text), file= / force_dict= keywords of the constructors", "xpath navigation of the constructed object"]
